@@ -651,7 +651,7 @@ def gen_ties(chk):
     from sqlglot import exp
     from sqlglot.dialects.snowflake import Snowflake
     rnd = random.Random(chk.seed + 7)
-    strs = list(ATOMS) + [gen_str(rnd, nul=(i % 50 == 0)) for i in range(800 if chk.tier == "quick" else 20000)]
+    strs = list(ATOMS) + [gen_str(rnd, nul=(i % 50 == 0)) for i in range(400 if chk.tier == "quick" else 20000)]
     reps = common.batch(["vars\tsflit\t" + enc_str(s) for s in strs])
     for s, r in zip(strs, reps):
         real = exp.Literal.string(s).sql(dialect="snowflake")
